@@ -852,7 +852,7 @@ fn main() {
     }
     let spec = PropSpec {
         id: "C04",
-        rule_text: "Part A: register machine with 4 registers of Uint<BITS> and 2 of a second width; histories = 1..39 steps drawn from a catalogue of 144 safe public producers (constants; from_limbs / from_limbs_slice and its checked / wrapping / overflowing / saturating forms incl. out-of-range and over-long limb vectors; conversions from u64/i64/u128/i128/f64/f32 and other-width Uints; byte, string, digit decoders on generated inputs; all arithmetic, bit, shift, rotate, modular, gcd, pow, root operations; set_bit incl. out-of-range indices; rand 0.8 / 0.9 with seeded RNGs, random() and randomize() on the thread-local RNG (checked, never stored), arbitrary over generated bytes, proptest any() incl. shrunk values, quickcheck; serde_json, bincode, rlp, alloy-rlp, SCALE fixed/compact, SSZ, borsh, DER decoders fed encodings of the other-width registers; num-traits constructors; BigUint/BigInt conversions; Sum/Product; Bits wrapper). A step that panics leaves the registers unchanged. Invariant after every step: every register canonical (bits >= BITS zero, read through as_limbs), and for every register pair ==, Hash (SipHash, fixed keys), cmp, partial_cmp, <, <=, >, >=, min, max, is_zero agree with the integers. Exhaustive for BITS in {1,2,3,5,6}: all (a,b) pairs x every producer. Non-trivial history: non-aligned width and some step produced a value with bit BITS-1 set or was handed out-of-range input. Part B: generated programs for every ill-formed (BITS,LIMBS) in {0,1,63,64,65,128,129} x {0,1,2,3} x a catalogue of 60 constants/constructors; each obtains the value and dumps its raw memory without calling another Uint method; a compile error or run-time panic is correct, printing OBTAINED is a violation; every catalogue entry has control twins (well-formed LIMBS at 64 and 129 bits) that must print OBTAINED. Part C: programs that write a non-canonical limb through Uint::as_limbs_mut, Uint::as_le_slice_mut and Bits::as_limbs_mut without an `unsafe` block must be rejected by the compiler (twins with the block are the controls). Part D: in the feature configuration [std, rand] without rand-09 (second probe package) the rand-0.8 inherent generators randomize_with, random_with, Rng::gen, Rng::sample on an all-ones generator and random(), randomize() OR-ed over 64 thread-RNG draws must hand out canonical values at 7, 63, 64, 65 and 100 bits.",
+        rule_text: "Part A: register machine with 4 registers of Uint<BITS> and 2 of a second width; histories = 1..39 steps drawn from a catalogue of 144 safe public producers (constants; from_limbs / from_limbs_slice and its checked / wrapping / overflowing / saturating forms incl. out-of-range and over-long limb vectors; conversions from u64/i64/u128/i128/f64/f32 and other-width Uints; byte, string, digit decoders on generated inputs; all arithmetic, bit, shift, rotate, modular, gcd, pow, root operations; set_bit incl. out-of-range indices; rand 0.8 / 0.9 with seeded RNGs, random() and randomize() on the thread-local RNG (checked, never stored), arbitrary over generated bytes, proptest any() incl. shrunk values, quickcheck; serde_json, bincode, rlp, alloy-rlp, SCALE fixed/compact, SSZ, borsh, DER decoders fed encodings of the other-width registers; num-traits constructors; BigUint/BigInt conversions; Sum/Product; Bits wrapper). A step that panics leaves the registers unchanged. Invariant after every step: every register canonical (bits >= BITS zero, read through as_limbs), and for every register pair ==, Hash (SipHash, fixed keys), cmp, partial_cmp, <, <=, >, >=, min, max, is_zero agree with the integers. Width pairs include 1088 and 2112 bits (17 and 33 limbs). Exhaustive for BITS in {1,2,3,5,6}: all (a,b) pairs x every producer. Non-trivial history: non-aligned width and some step produced a value with bit BITS-1 set or was handed out-of-range input. Part B: generated programs for every ill-formed (BITS,LIMBS) in {0,1,63,64,65,128,129} x {0,1,2,3} x a catalogue of 60 constants/constructors; each obtains the value and dumps its raw memory without calling another Uint method; a compile error or run-time panic is correct, printing OBTAINED is a violation; every catalogue entry has control twins (well-formed LIMBS at 64 and 129 bits) that must print OBTAINED. Part C: programs that write a non-canonical limb through Uint::as_limbs_mut, Uint::as_le_slice_mut and Bits::as_limbs_mut without an `unsafe` block must be rejected by the compiler (twins with the block are the controls). Part D: in the feature configuration [std, rand] without rand-09 (second probe package) the rand-0.8 inherent generators randomize_with, random_with, Rng::gen, Rng::sample on an all-ones generator and random(), randomize() OR-ed over 64 thread-RNG draws must hand out canonical values at 7, 63, 64, 65 and 100 bits.",
         assumptions: vec![
             "Part A keeps no model of the operations' semantics: it can only alarm about the invariant",
             "quickcheck::Gen cannot be seeded: its values are checked but not reproducible from the seed (failing values are saved in the replay file)",
@@ -865,6 +865,9 @@ fn main() {
         spec,
         |jobs, _| {
             reg_pair_enum!(jobs; (1, 2), (2, 1), (3, 7), (5, 3), (6, 64));
+            // two wide widths with odd limb counts (17 and 33 limbs): few histories, the ordering
+            // and equality invariants run over long limb arrays
+            reg_pair!(jobs, 250; (1088, 64), (2112, 65));
             reg_pair!(jobs, 4000; (0, 65), (128, 0), (1, 64), (7, 8), (31, 32), (63, 64), (64, 63), (65, 128), (127, 128), (128, 129), (129, 64), (190, 255), (255, 256), (256, 257), (320, 63), (535, 60));
         },
         |_| Map::new(),
